@@ -14,7 +14,7 @@ pub fn run(tier: Tier) -> i32 {
     let lens: &[usize] = tier.pick(&[2, 3, 4, 5, 10, 25], &[2, 3, 4, 5, 6, 7, 8, 10, 15, 20, 25, 30, 35, 40]);
     let betas = [0.0, 0.1, 0.3, 0.5];
     let alphas = [0.0, 0.3, 0.6];
-    rep.set_rule("SCOPE: cepstrum lattice of C06 (scaled so (1+beta) x shape <= 2 Np) x beta {0,.1,.3,.5} x alpha {0,.3,.6} x vector lengths, plus tilt-dominated spectra (|c1| in {1.2,1.5,1.8}, |c2| in {.2,.4}, all sign pairs) for which the emphasis can lower the energy; second pulse of a stationary 2-frame run through the real Vocoder; oracle: log|H_beta|-log|H_0|-beta*sum_{m>=2} c_m cos(m w~) constant over frequency within 0.01 Np, impulse-response energy within 1%, beta=0 and length 2 bit-identical to no postfilter; distinct = (length, alpha, beta, cepstrum); non-trivial = beta>0 and length>2");
+    rep.set_rule("SCOPE: cepstrum lattice of C06 (scaled so (1+beta) x shape <= 2 Np) x beta {0,.1,.3,.5} x alpha {0,.3,.6} x vector lengths, plus tilt-dominated spectra (|c1| in {1.2,1.5,1.8}, |c2| in {.2,.4}, all sign pairs) for which the emphasis can lower the energy; second pulse of a stationary 2-frame run through the real Vocoder; oracle: log|H_beta|-log|H_0|-beta*sum_{m>=2} c_m cos(m w~) constant over frequency within 0.01 Np, impulse-response energy within 1%, beta=0 and length 2 bit-identical to no postfilter; plus histories: the last frame after a linear glide between two cepstra over 8, 300 or 2500 (thorough: 12000) frames obeys the same two laws; distinct = (length, alpha, beta, cepstrum); non-trivial = beta>0 and length>2");
     rep.assume("lattice cepstra only; energy measured on the truncated pulse response (tail < 1e-7 of peak)");
     let mut cases: Vec<(usize, f64, f64, Vec<f64>)> = Vec::new();
     for &len in lens {
@@ -141,6 +141,89 @@ pub fn run(tier: Tier) -> i32 {
             }
         }
     });
+    // histories: a spectrum that glides slowly from A to B over N frames and then stays at B. The postfilter works frame
+    // by frame, so the last frame must obey the same laws as a fresh vocoder given B - whatever N is (anything that
+    // remembers earlier frames shows up only for long, slow glides)
+    let mut glides: Vec<(usize, f64, f64, usize)> = Vec::new();
+    for &len in &[3usize, 6, 25] {
+        for &alpha in &[0.0, 0.42] {
+            for &beta in &[0.1, 0.4] {
+                for &n in tier.pick(&[8usize, 300, 2500][..], &[8usize, 300, 2500, 12000][..]) {
+                    glides.push((len, alpha, beta, n));
+                }
+            }
+        }
+    }
+    let glide_worst = Mutex::new(0.0f64);
+    rep.par_for(glides.len(), 1, "C14 glides", |gi| {
+        let (len, alpha, beta, n) = glides[gi];
+        let pats = patterns(len);
+        let mk = |pi: usize, scale: f64, c0: f64| -> Vec<f64> {
+            let mut c = pats[pi % pats.len()].clone();
+            let mx = shape_max(&c, alpha);
+            for m in 1..len {
+                c[m] *= scale / mx;
+            }
+            c[0] = c0;
+            c
+        };
+        let a = mk(1, 0.6, 0.3);
+        let b = mk(pats.len() / 2 + 1, 1.2, -0.2);
+        let rate = 16000usize;
+        let t0 = rate / 20;
+        let run = |bt: f64| -> Result<Vec<f64>, String> {
+            let (a, b) = (a.clone(), b.clone());
+            catch(move || {
+                let mut v = jbonsai::vocoder::Vocoder::new(len, 0, 0, false, rate, alpha, bt, 1.0, t0);
+                let mut buf = vec![0.0; t0];
+                for f in 0..n + 3 {
+                    let t = (f as f64 / n as f64).min(1.0);
+                    let c: Vec<f64> = a.iter().zip(&b).map(|(x, y)| x + (y - x) * t).collect();
+                    v.synthesize(20f64.ln(), &c, &[], &mut buf);
+                }
+                let s = (t0 as f64).sqrt();
+                buf[..t0 - 2].iter().map(|x| x / s).collect::<Vec<f64>>()
+            })
+        };
+        rep.eval(1);
+        let rp = json!({"vector_length": len, "alpha": alpha, "beta": beta, "glide_frames": n, "from": a, "to": b, "measure": "last of three frames at the end point"});
+        let (h0, hb) = match (run(0.0), run(beta)) {
+            (Ok(x), Ok(y)) => (x, y),
+            (Err(p), _) | (_, Err(p)) => {
+                rep.violation(format!("panic@{}", site_of(&p)), p, rp);
+                return;
+            }
+        };
+        let tail = hb[hb.len() - hb.len() / 20..].iter().fold(0.0f64, |x, y| x.max(y.abs())) / hb.iter().fold(0.0f64, |x, y| x.max(y.abs()));
+        if !(tail <= 1e-5) {
+            rep.guard(false, &format!("glide case: tail {:e} too large to measure", tail));
+            return;
+        }
+        let e0: f64 = h0.iter().map(|x| x * x).sum();
+        let eb: f64 = hb.iter().map(|x| x * x).sum();
+        let erel = (eb / e0 - 1.0).abs();
+        let mut dmin = f64::INFINITY;
+        let mut dmax = f64::NEG_INFINITY;
+        for w in &grid {
+            let wt = warp(*w, alpha);
+            let sharpen: f64 = beta * (2..len).map(|m| b[m] * (m as f64 * wt).cos()).sum::<f64>();
+            let d = logmag(&hb, *w) - logmag(&h0, *w) - sharpen;
+            rep.cmp(1);
+            dmin = dmin.min(d);
+            dmax = dmax.max(d);
+        }
+        {
+            let mut w = glide_worst.lock().unwrap();
+            *w = w.max(erel);
+        }
+        if !(dmax - dmin <= 0.02) {
+            rep.violation("shape-after-glide", format!("after a glide of {} frames: orders >= 2 are not scaled by (1+beta): residual spread {:.4} Np (len {}, alpha {}, beta {})", n, dmax - dmin, len, alpha, beta), rp.clone());
+        }
+        if !(erel <= 0.01) {
+            rep.violation("energy-after-glide", format!("after a glide of {} frames the impulse-response energy differs by {:.2}% between beta {} and beta 0 (len {}, alpha {})", n, erel * 100.0, beta, len, alpha), rp);
+        }
+    });
+    rep.note("glides", json!({"cases": glides.len(), "frames": tier.pick(&[8usize, 300, 2500][..], &[8usize, 300, 2500, 12000][..]), "worst_energy_rel": *glide_worst.lock().unwrap()}));
     let w = *worst.lock().unwrap();
     rep.nontrivial.store(nontriv.load(std::sync::atomic::Ordering::Relaxed), std::sync::atomic::Ordering::Relaxed);
     rep.note("bounds", json!({"lengths": lens, "alphas": alphas, "betas": betas, "scales_np": [0.5, 1.3], "frequencies": nfreq, "cepstra": cases.len(), "worst_shape_spread_np": w.0, "worst_energy_rel": w.1}));
